@@ -35,7 +35,12 @@ def main():
     checks = []
     serves = {}
     for p in sorted((ROOT / "checks").glob("c[0-9][0-9]_*.py")):
-        c = consts(p)
+        try:
+            c = consts(p)
+        except SyntaxError:
+            continue
+        if not c.get("READY"):   # a check is registered only after review on the unchanged tree
+            continue
         pid = c["ID"]
         checks.append({
             "property_id": pid,
